@@ -74,8 +74,11 @@ add("C07", "other",
     "disk_revolve() makespan == OPTINF+(l+1)uf (so cost(DiskRevolve) <= cost(Revolve) at the sequence "
     "level by the recurrence), argmin, revolver_parameters; Table class; the sequence-algebra accessors "
     "(Operation.cost, Sequence.insert/insert_sequence/shift/remove_useless_wm) are assumed contracts "
-    "validated at run time. Not under contract: get_hopt_table/hrevolve_* (extended reals, 3-level "
-    "tables), periodic_disk_revolve, and the link stream cost == makespan through the iterator: "
+    "validated at run time; periodic_disk_revolve() makespan == periodic recurrence PDRC; cost-role "
+    "data-flow obligations: every cost-carrying argument (uf/ub/wvect/rvect...) reaches a parameter of "
+    "the same role at every call site of the package (this is the obligation the pinned tree's "
+    "uf/ub swap fails). Not under contract: get_hopt_table/hrevolve_* (extended reals, 3-level "
+    "tables) and the link stream cost == makespan through the iterator: "
     "bounded - stream cost vs exact-rational recurrences for n<=16, 16 cost vectors incl. uf!=ub, "
     "wd!=rd, zeros; recurrences validated by Dijkstra search for n<=4/5.")
 add("C08", "other",
@@ -143,7 +146,10 @@ add("C18", "other",
 add("C19", "other",
     "Proved (VC): mxrr_close_formula returns int(beta(cm, t*)) with t* the first t with "
     "beta(cm+1,t) > (wd+rd)/uf (beta uninterpreted) and has no dependence on n; each segment is built "
-    "by revolve(), proved memory-only optimal (makespan). Positions of DISK writes/loads in the stream, "
+    "by revolve(), proved memory-only optimal (makespan); periodic_disk_revolve() builds a sequence "
+    "whose makespan equals the periodic-cost recurrence PDRC with exactly that period (disk write at "
+    "every period boundary, one disk read per segment, last segment from get_opt_1d_table/OPT0) for "
+    "all l, cm>=1 and all positive costs; cost-role data-flow obligations at the call sites. Positions of DISK writes/loads in the stream, "
     "read-once, beta == math.comb: bounded (all n<=60/200, RAM units 1..4, 16 cost vectors).")
 
 
